@@ -1,77 +1,147 @@
 #!/usr/bin/env python3
 """Generate Sm9/Gen/LimbEquiv.lean from Sm9/Gen/limb_meta.json + limb_report.json (written by rs2lean's
 limb module): one theorem per function translated from the *current* arith.rs / u256.rs / u512.rs /
-fields/fp.rs stating that it equals the hand-written limb model (Sm9/Model/{Limbs,Mont}.lean) for all
-inputs, plus one theorem per array-index / shift-amount obligation the translator could not decide statically.
+fields/fp.rs (+ FieldElement::pow of fields.rs) stating that it equals the hand-written limb model
+(Sm9/Model/{Limbs,Mont}.lean) for all inputs, plus one theorem per obligation the translator could not decide
+statically (array index, shift amount, slice bound, equal lengths, no underflow, `isSome`).
 Regenerated on every run.   usage: gen_limb_equiv.py <lean/Sm9/Gen>"""
 import json, sys, os, re
 
-# key -> (model right-hand side as a function of the generated definition's parameter names,
-#         extra hypotheses, tactic)
-# `{0}`, `{1}`, ... are the parameters of the generated definition, in order (so a renamed Rust parameter
-# does not matter).  A right-hand side that is not a model function is a hand-written specification
-# (the model has no separate definition for that Rust function); these are marked SPEC.
+# key -> dict(rhs=..., hyps=[...], tac=..., lhs=..., proof=...)
+#   rhs   model right-hand side; `{0}`, `{1}`, ... are the parameters of the generated definition, in order
+#         (so a renamed Rust parameter does not matter).  A right-hand side that is not a model function is a
+#         hand-written specification (the model has no separate definition for that Rust function): SPEC.
+#   hyps  explicit hypotheses (values of Rust type U256 are < 2^256, ...)
+#   tac   tactic name taking `G [eqs]`; default: limb_equiv / limb_partial / limb_spec chosen from the shape
+#   nf    model-side normal-form lemma to rewrite with first (hand-proved in LimbEquivTactics.lean)
+#   lhs   left-hand side if it is not simply `G params`
+#   proof full tactic script (`{g}` generated definition, `{eqs}` equivalences of the callees, `{0}`.. parameters)
+def M(rhs, hyps=(), **kw):
+    d = dict(rhs=rhs, hyps=list(hyps))
+    d.update(kw)
+    return d
+
 MODEL = {
-    'Arith.adc': ('Sm9.Limb.adc B64 {0} {1} {2}', [], None),
-    'Arith.mac': ('Sm9.Limb.mac B64 {0} {1} {2} {3}', [], None),
-    'Arith.sbb': ('(((({0} + 2 ^ 128 - ({1} + {2} >>> 63)) % 2 ^ 128) % B64), ((({0} + 2 ^ 128 - ({1} + {2} >>> 63)) % 2 ^ 128) / B64))', [], None),  # SPEC
-    'Arith.mac_discard': ('(Sm9.Limb.mac B64 {0} {1} {2} 0).2', [], None),  # SPEC (old carry is ignored)
-    'Arith.mac_with_carry_macro': ('((Sm9.Limb.mac B64 {0} {1} {2} {3}).2, (Sm9.Limb.mac B64 {0} {1} {2} {3}).1)', [], None),
-    'Arith.adc_macro': ('((Sm9.Limb.adc B64 {0} {1} {2}).2, (Sm9.Limb.adc B64 {0} {1} {2}).1)', [], None),
-    'U256.zero': ('(0 : Nat)', [], None),  # SPEC
-    'U256.one': ('(1 : Nat)', [], None),  # SPEC
-    'U256.is_zero': ('({0} == 0)', [], None),  # SPEC
-    'U256.is_one': ('({0} == 1)', [], None),  # SPEC
-    'U256.is_even': ('Sm9.Big.is_even {0}', [], None),
-    'U256.is_odd': ('Sm9.Big.is_odd {0}', [], None),
-    'U256.set_bit': ('Sm9.U256.set_bit {0} {1} {2}', ['{0} < W256'], 'limb_set_bit'),
-    'U256.get_bit': ('Sm9.U256.get_bit {0} {1}', [], None),
-    'U256.subtract_modulus_with_carry': ('Sm9.U256.subtract_modulus_with_carry {0} {1} {2}', [], None),
-    'U256.add_carry': ('Sm9.U256.add_carry {0} {1} {2}', [], None),
-    'U256.add': ('Sm9.U256.add {0} {1} {2}', [], None),
-    'U256.sub': ('Sm9.U256.sub {0} {1} {2}', [], None),
-    'U256.mul2': ('Sm9.U256.mul2 {0} {1}', [], None),
-    'U256.div2': ('Sm9.U256.div2 {0} {1}', [], None),
-    'U256.neg': ('Sm9.U256.neg {0} {1}', [], None),
-    'U256.mul_without_cond_subtract': ('Sm9.U256.mul_without_cond_subtract {0} {1} {2} {3}', [], None),
-    'U256.mul': ('Sm9.U256.mul {0} {1} {2} {3}', [], None),
-    'U256.square': ('Sm9.U256.square {0} {1} {2}', [], None),
-    'U256.invert': ('Sm9.U256.invert {0} {1} {2}', [], None),
-    'U512.bit_length': ('Sm9.Big.num_bits {0}', [], None),
-    'U512.get_bit': ('(if {1} ≥ 512 then none else some (Sm9.Big.get_bit {0} {1}))', [], None),  # SPEC
-    'Fp.into_u256': ('Sm9.Fp.into_u256 {0} {1}', [], None),
-    'Fp.zero': ('Sm9.Fp.zero', [], None),
-    'Fp.is_zero': ('Sm9.Fp.is_zero {1}', [], None),
-    'Fp.one': ('Sm9.Fp.one {0}', [], None),
-    'Fp.is_one': ('({1} == Sm9.Fp.one {0})', [], None),  # SPEC (FqL.is_one at P = paramsQ)
-    'Fp.new': ('Sm9.Fp.new {0} {1}', [], None),
-    'Fp.new_mul_factor': ('Sm9.Fp.new_mul_factor {0} {1}', [], None),
-    'Fp.add_inplace': ('Sm9.Fp.add {0} {1} {2}', [], None),
-    'Fp.sub_inplace': ('Sm9.Fp.sub {0} {1} {2}', [], None),
-    'Fp.mul_inplace': ('Sm9.Fp.mul {0} {1} {2}', [], None),
-    'Fp.neg_inplace': ('Sm9.Fp.neg {0} {1}', [], None),
-    'Fp.inverse': ('Sm9.Fp.inverse {0} {1}', [], None),
-    'Fp.double': ('Sm9.Fp.double {0} {1}', [], None),
-    'Fp.triple': ('Sm9.Fp.triple {0} {1}', [], None),
-    'Fp.squared': ('Sm9.Fp.squared {0} {1}', [], None),
-    'Fp.set_bit': ('(Sm9.Fp.set_bit {0} {1} {2} {3})', ['Sm9.Fp.into_u256 {0} {1} < W256'], None),
-    'Fp.modulus': ('{0}.modulus', [], None),  # SPEC
-    'Fp.raw': ('{1}', [], None),  # SPEC
-    'Fq.div2': ('Sm9.Fp.div2 Sm9.FqL.P {0}', [], None),
-    'Fq.sqrt': ('Sm9.FqL.sqrt {0}', [], None),
-    'Fq.sum_of_products': ('Sm9.FqL.sum_of_products {0} {1}', [], 'limb_sop'),
+    'Arith.adc': M('Sm9.Limb.adc B64 {0} {1} {2}'),
+    'Arith.mac': M('Sm9.Limb.mac B64 {0} {1} {2} {3}'),
+    'Arith.sbb': M('(((({0} + 2 ^ 128 - ({1} + {2} >>> 63)) % 2 ^ 128) % B64), ((({0} + 2 ^ 128 - ({1} + {2} >>> 63)) % 2 ^ 128) / B64))'),  # SPEC
+    'Arith.mac_discard': M('(Sm9.Limb.mac B64 {0} {1} {2} 0).2'),  # SPEC (old carry is ignored)
+    'Arith.mac_with_carry_macro': M('((Sm9.Limb.mac B64 {0} {1} {2} {3}).2, (Sm9.Limb.mac B64 {0} {1} {2} {3}).1)'),
+    'Arith.adc_macro': M('((Sm9.Limb.adc B64 {0} {1} {2}).2, (Sm9.Limb.adc B64 {0} {1} {2}).1)'),
+    'U256.zero': M('(0 : Nat)'),  # SPEC
+    'U256.one': M('(1 : Nat)'),  # SPEC
+    'U256.is_zero': M('({0} == 0)'),  # SPEC
+    'U256.is_one': M('({0} == 1)'),  # SPEC
+    'U256.is_even': M('Sm9.Big.is_even {0}'),
+    'U256.is_odd': M('Sm9.Big.is_odd {0}'),
+    'U256.set_bit': M('Sm9.U256.set_bit {0} {1} {2}', ['{0} < W256'], tac='limb_set_bit'),
+    'U256.get_bit': M('Sm9.U256.get_bit {0} {1}'),
+    'U256.subtract_modulus_with_carry': M('Sm9.U256.subtract_modulus_with_carry {0} {1} {2}'),
+    'U256.add_carry': M('Sm9.U256.add_carry {0} {1} {2}'),
+    'U256.add': M('Sm9.U256.add {0} {1} {2}'),
+    'U256.sub': M('Sm9.U256.sub {0} {1} {2}'),
+    'U256.mul2': M('Sm9.U256.mul2 {0} {1}'),
+    'U256.div2': M('Sm9.U256.div2 {0} {1}'),
+    'U256.neg': M('Sm9.U256.neg {0} {1}'),
+    'U256.mul_without_cond_subtract': M('Sm9.U256.mul_without_cond_subtract {0} {1} {2} {3}'),
+    'U256.mul': M('Sm9.U256.mul {0} {1} {2} {3}'),
+    'U256.square': M('Sm9.U256.square {0} {1} {2}'),
+    'U256.invert': M('Sm9.U256.invert {0} {1} {2}'),
+    'U256.from_slice': M('Sm9.U256.from_slice {0}', nf='Bytes.from_slice32_nf'),
+    # the model takes the length of the output buffer instead of the buffer
+    'U256.to_big_endian': M('Sm9.U256.to_big_endian {0} (List.length {1})', lhs='Option.map (fun _ => ({g} {0} {1}).1) ({g} {0} {1}).2'),
+    'BitIterator.next': M('Bits.nextSpec {0}'),  # SPEC (hand-written in LimbEquivTactics.lean)
+    'U256.bits': M('({0}, 256)'),  # SPEC
+    'U256.bits_without_leading_zeros': M('bitsMSB {0}', ['{0} < W256'], proof="""
+  unfold {g}
+  have e : Sm9.Gen.L.BitIterator.next = Bits.nextSpec := funext BitIterator_next_equiv
+  rw [e]
+  exact Bits.bits_nf {0} h0"""),
+    'U512.random': M('(List.drop 8 {0}, Limb.value B64 (List.take 8 {0}))'),  # SPEC (a script of drawn u64s, as the model's Fp.random)
+    'U256.random': M('(List.drop 8 {0}, (Sm9.U512.divrem (Limb.value B64 (List.take 8 {0})) {1}).1.2)', ['{1} < W256']),  # SPEC
+    'U512.from_slice': M('Sm9.U512.from_slice {0}', nf='Bytes.from_slice64_nf'),
+    'U512.new': M('Sm9.U512.new {0} {1} {2}', ['{0} < W256', '{2} < W256'], nf='(U512L.new_model_nf _ _ _ h0 h1)'),
+    # the loop body is compared under the invariant "the quotient so far is < 2^256" (needed for `set_bit`)
+    'U512.divrem': M('Sm9.U512.divrem {0} {1}', ['{1} < W256'], proof="""
+  unfold {g} Sm9.U512.divrem
+  simp only [U256_zero_equiv, U512_bit_length_equiv]
+  obtain ⟨hfold, hinv⟩ := U512L.foldl_congr_inv U512L.QInv (fun st x => Sm9.Gen.L.U512.divrem.for1 {0} {1} st x) (Sm9.U512.divStep {0} {1})
+    (fun s x hs => U512_divrem_for1_equiv {0} {1} s x hs) (fun s x hs => U512L.divStep_inv {0} {1} s x hs)
+    (List.reverse (List.range (Big.num_bits {0}))) (some 0, 0) U512L.QInv_init
+  rw [hfold]
+  generalize List.foldl (Sm9.U512.divStep {0} {1}) (some 0, 0) (List.range (Big.num_bits {0})).reverse = st at hinv ⊢
+  obtain ⟨q, r⟩ := st
+  cases q with
+  | none => rfl
+  | some qv =>
+    have hqv : qv < W256 := hinv qv rfl
+    simp only [U512_new_equiv _ _ _ hqv h0, U512L.beq_comm_nat {0}]
+    (repeat' split) <;> first | rfl | simp_all"""),
+    'U512.bit_length': M('Sm9.Big.num_bits {0}'),
+    'U512.get_bit': M('(if {1} ≥ 512 then none else some (Sm9.Big.get_bit {0} {1}))'),  # SPEC
+    'U512.one': M('(1 : Nat)'),  # SPEC
+    'U512.interpret': M('(Outcome.unwrap (Sm9.U512.from_slice {0}))'),  # SPEC (inlined in the model's Fp.interpret)
+    'Fp.into_u256': M('Sm9.Fp.into_u256 {0} {1}'),
+    'Fp.zero': M('Sm9.Fp.zero'),
+    'Fp.is_zero': M('Sm9.Fp.is_zero {1}'),
+    'Fp.one': M('Sm9.Fp.one {0}'),
+    'Fp.is_one': M('({1} == Sm9.Fp.one {0})'),  # SPEC (FqL.is_one at P = paramsQ)
+    'Fp.new': M('Sm9.Fp.new {0} {1}'),
+    'Fp.new_mul_factor': M('Sm9.Fp.new_mul_factor {0} {1}'),
+    'Fp.add_inplace': M('Sm9.Fp.add {0} {1} {2}'),
+    'Fp.sub_inplace': M('Sm9.Fp.sub {0} {1} {2}'),
+    'Fp.mul_inplace': M('Sm9.Fp.mul {0} {1} {2}'),
+    'Fp.neg_inplace': M('Sm9.Fp.neg {0} {1}'),
+    'Fp.inverse': M('Sm9.Fp.inverse {0} {1}'),
+    'Fp.double': M('Sm9.Fp.double {0} {1}'),
+    'Fp.triple': M('Sm9.Fp.triple {0} {1}'),
+    'Fp.squared': M('Sm9.Fp.squared {0} {1}'),
+    'Fp.set_bit': M('(Sm9.Fp.set_bit {0} {1} {2} {3})', ['Sm9.Fp.into_u256 {0} {1} < W256']),
+    'Fp.modulus': M('{0}.modulus'),  # SPEC
+    'Fp.raw': M('{1}'),  # SPEC
+    'Fp.from_slice': M('Sm9.Fp.from_slice {0} {1}'),
+    'Fp.to_slice': M('(Outcome.ok (Sm9.Fp.to_slice {0} {1}))'),
+    'Fp.interpret': M('Sm9.Fp.interpret {0} {1}', ['{0}.modulus < W256']),
+    'Fr.from_hash': M('Sm9.FrL.from_hash {0}', proof="""
+  unfold {g} Sm9.FrL.from_hash
+  split
+  · rfl
+  · have hmin : min (64 - List.length {0}) 64 = 64 - List.length {0} := Nat.min_eq_left (Nat.sub_le _ _)
+    simp (disch := limb_lt) only [{eqs}, List.take_replicate, hmin]
+    cases Sm9.U512.from_slice (List.replicate (64 - List.length {0}) 0 ++ {0}) <;> simp"""),
+    'Fp.from_str': M('Sm9.Fp.from_str {0} {1}', proof="""
+  unfold {g} Sm9.Fp.from_str
+  simp only [{eqs0}, Option.bind_fun_some]
+  congr 1
+  funext st c
+  unfold Sm9.Gen.L.Fp.from_str.for1
+  simp only [{eqs0}, Option.bind_fun_some]
+  cases st with
+  | none => rfl
+  | some res =>
+    simp only [Option.bind_some]
+    cases hd : Char.isDigit c
+    · simp
+    · simp only [if_true]; kernel_rfl"""),
+    'Fp.random': M('(List.drop 8 {1}, Sm9.Fp.random {0} {1})', ['{0}.modulus < W256']),
+    'Fp.pow': M('Sm9.Fp.pow {0} {1} {2}', ['Sm9.Fp.into_u256 {0} {2} < W256']),
+    'Fq.div2': M('Sm9.Fp.div2 Sm9.FqL.P {0}'),
+    'Fq.sqrt': M('Sm9.FqL.sqrt {0}'),
+    'Fq.sum_of_products': M('Sm9.FqL.sum_of_products {0} {1}', tac='limb_sop'),
 }
 
 PARAMS_MODEL = {'Fq': 'Sm9.paramsQ', 'Fr': 'Sm9.paramsR'}
 
-# fuel-recursive auxiliary definitions (one per `while` loop): statement and proof.
-# `{g}` the generated loop, `{0}`.. its parameters after the fuel, `{eqs}` the callee equivalences.
+# auxiliary definitions: ('fuel' | 'body', statement, proof).
+#   'fuel': one per `while` loop; the theorem is stated as `(fuel : Nat) : ∀ params, ...`
+#   'body': one per dynamic `for` loop; the parameters of the body definition are the theorem's binders
+# `{g}` the auxiliary definition, `{0}`.. its parameters, `{eqs}` the callee equivalences.
 AUX = {
-    'U256.add_carry.loop1': ('∀ ({ps} : Nat), {g} fuel {args} = Sm9.U256.add_carry fuel {0} {1}', 'limb_loop fuel {g} Sm9.U256.add_carry [{eqs}]'),
-    'U256.invert.loop2': ('∀ ({ps} : Nat), {g} fuel {args} = Sm9.U256.halve fuel {0} {1} {2}', 'limb_loop fuel {g} Sm9.U256.halve [{eqs}]'),
-    'U256.invert.loop3': ('∀ ({ps} : Nat), {g} fuel {args} = Sm9.U256.halve fuel {0} {1} {2}', 'limb_loop fuel {g} Sm9.U256.halve [{eqs}]'),
+    'U256.add_carry.loop1': ('fuel', '∀ ({ps} : Nat), {g} fuel {args} = Sm9.U256.add_carry fuel {0} {1}', 'limb_loop fuel {g} Sm9.U256.add_carry [{eqs}]'),
+    'U256.invert.loop2': ('fuel', '∀ ({ps} : Nat), {g} fuel {args} = Sm9.U256.halve fuel {0} {1} {2}', 'limb_loop fuel {g} Sm9.U256.halve [{eqs}]'),
+    'U256.invert.loop3': ('fuel', '∀ ({ps} : Nat), {g} fuel {args} = Sm9.U256.halve fuel {0} {1} {2}', 'limb_loop fuel {g} Sm9.U256.halve [{eqs}]'),
     # the model's outer loop also performs the final selection `if u == 1 then b else c`
-    'U256.invert.loop1': ('∀ ({ps} : Nat), Option.map (fun (s : Nat × Nat × Nat × Nat) => if s.1 == 1 then s.2.2.1 else s.2.2.2) ({g} fuel {args}) = Sm9.U256.invLoop fuel {0} {1} {2} {3} {4}',
+    'U256.invert.loop1': ('fuel', '∀ ({ps} : Nat), Option.map (fun (s : Nat × Nat × Nat × Nat) => if s.1 == 1 then s.2.2.1 else s.2.2.2) ({g} fuel {args}) = Sm9.U256.invLoop fuel {0} {1} {2} {3} {4}',
         """
   induction fuel with
   | zero => intros; rfl
@@ -92,6 +162,19 @@ AUX = {
         split <;> simp [← ih, *]"""),
 }
 
+AUX['U512.divrem.for1'] = ('body', '∀ (st : Option Nat × Nat) (i : Nat), U512L.QInv st → {g} {0} {1} st i = Sm9.U512.divStep {0} {1} st i', """
+  intro ⟨q, r⟩ i hq
+  unfold {g} Sm9.U512.divStep
+  have hr : (Big.mul2 W256 r).1 < W256 := by simp only [Big.mul2, W256]; omega
+  cases q with
+  | none =>
+    simp (disch := limb_lt) only [U256_set_bit_equiv _ _ _ hr]
+    (repeat' split) <;> limb_fin []
+  | some q0 =>
+    have hq0 : q0 < W256 := hq q0 rfl
+    simp (disch := limb_lt) only [U256_set_bit_equiv _ _ _ hr, U256_set_bit_equiv _ _ _ hq0]
+    (repeat' split) <;> limb_fin []""")
+
 # fully unrolled carry chains: evaluate both sides in the kernel, do not rewrite inside the big term
 HEAVY = {'U256.mul_without_cond_subtract', 'U256.square'}
 
@@ -102,6 +185,8 @@ SPECIAL = {
   simp only [← U256_invert_loop1_equiv, {eqs0}]
   cases Sm9.Gen.L.U256.invert.loop1 1200 {0} {1} {2} 0 {1} <;> simp""",
 }
+
+OMIT = set(filter(None, os.environ.get('LIMB_OMIT', '').split(',')))
 
 
 def thm_name(key):
@@ -128,7 +213,7 @@ def main(gen_dir):
     for o in meta['obligations']:
         hyps = ' '.join(f'(h{i} : {h})' for i, h in enumerate(o['hyps']))
         nm = o['name'].replace('.', '_')
-        L.append(f"/-- in-range obligation left by the translator for `{o['name'].rsplit('.', 1)[0]}` -/")
+        L.append(f"/-- obligation left by the translator for `{o['name'].rsplit('.', 1)[0]}` -/")
         L.append(f"theorem {nm} {o['binders']} {hyps} : {o['goal']} := by limb_bound")
         names.append(nm)
     L.append('')
@@ -141,53 +226,61 @@ def main(gen_dir):
         eqs = [thm_name(c) for c in f['calls'] if c in proved]
         missing = [c for c in f['calls'] if c not in proved]
         if key.startswith('Fq.') or key.startswith('Fr.'):
-            eqs += param_eqs + ['Sm9.FqL.P', 'Sm9.FqL.is_one']
-        ok = True
+            eqs += param_eqs + ['Sm9.FqL.P', 'Sm9.FqL.is_one', 'Sm9.FrL.P']
         eqs0 = list(eqs)
         for aux in f['aux']:
             m = re.match(r'(\S+)\s*(.*)$', aux)
             aname = m.group(1)
-            ps = re.findall(r'\((\w+) : [^)]*\)', m.group(2))
-            akey = aname
-            if akey not in AUX:
-                L.append(f'-- {akey}: while loop without a configured model counterpart (NO THEOREM)')
-                unproved.append(akey)
-                ok = False
-                continue
-            stmt, proof = AUX[akey]
+            pts = re.findall(r'\((\w+) : ([^)]*)\)', m.group(2))
+            ps = [p[0] for p in pts]
             gl = 'Sm9.Gen.L.' + aname
+            if aname not in AUX:
+                if '.for' in aname:
+                    eqs = eqs + [gl]   # loop body without a model counterpart of its own: unfolded in place
+                else:
+                    L.append(f'-- {aname}: while loop without a configured model counterpart (NO THEOREM)')
+                    unproved.append(aname)
+                continue
+            kind, stmt, proof = AUX[aname]
             fmt = dict(g=gl, ps=' '.join(ps), args=' '.join(ps), eqs=', '.join(eqs))
-            nm = thm_name(akey)
-            L.append(f"theorem {nm} (fuel : Nat) : {stmt.format(*ps, **fmt)} := by {proof.format(*ps, **fmt)}")
+            nm = thm_name(aname)
+            binders = '(fuel : Nat)' if kind == 'fuel' else ' '.join(f'({n} : {t})' for n, t in pts)
+            L.append(f"theorem {nm} {binders} : {stmt.format(*ps, **fmt)} := by {proof.format(*ps, **fmt)}")
             names.append(nm)
             eqs = eqs + [nm]
-        if key not in MODEL:
+        if key not in MODEL or key in OMIT:
             L.append(f'-- {key}: translated, but no model counterpart is configured in tools/gen_limb_equiv.py (NO THEOREM)')
             unproved.append(key)
             continue
         if missing:
             L.append(f"-- {key}: calls {', '.join(missing)} whose equivalence is not available")
-        rhs, hyps, tac = MODEL[key]
+        e = MODEL[key]
         ps = [p[0] for p in f['params']]
-        rhs = rhs.format(*ps)
+        rhs = e['rhs'].format(*ps)
         binders = ' '.join(f'({n} : {t})' for n, t in f['params'])
-        hy = ' '.join(f'(h{i} : {h.format(*ps)})' for i, h in enumerate(hyps))
+        hy = ' '.join(f'(h{i} : {h.format(*ps)})' for i, h in enumerate(e['hyps']))
         nm = thm_name(key)
         fmt = dict(g=g, eqs=', '.join(eqs), eqs0=', '.join(eqs0))
+        lhs = e['lhs'].format(*ps, **fmt) if 'lhs' in e else f"{g} {' '.join(ps)}"
         mm = re.match(r'\(?(Sm9\.[\w.]+)', rhs)
-        if key in SPECIAL:
+        elist = ', '.join(eqs)
+        if 'proof' in e:
+            proof = e['proof'].format(*ps, **fmt)
+        elif key in SPECIAL:
             proof = SPECIAL[key].format(*ps, **fmt)
         elif key in HEAVY:
             proof = f"limb_heavy {g}"
-        elif tac:
-            proof = f"{tac} {g} [{', '.join(eqs)}]"
-        elif mm and not rhs.startswith('((') and f['partial']:
-            proof = f"limb_partial {g} {mm.group(1)} [{', '.join(eqs)}]"
+        elif 'nf' in e:
+            proof = f"limb_nf {g} [{elist}] {e['nf']}"
+        elif 'tac' in e:
+            proof = f"{e['tac']} {g} [{elist}]"
+        elif mm and not rhs.startswith('((') and (f['partial'] or f.get('panics')):
+            proof = f"limb_partial {g} {mm.group(1)} [{elist}]"
         elif mm and not rhs.startswith('(('):
-            proof = f"limb_equiv {g} {mm.group(1)} [{', '.join(eqs)}]"
+            proof = f"limb_equiv {g} {mm.group(1)} [{elist}]"
         else:
-            proof = f"limb_spec {g} [{', '.join(eqs)}]"
-        L.append(f"theorem {nm} {binders} {hy} : {g} {' '.join(ps)} = {rhs} := by {proof}")
+            proof = f"limb_spec {g} [{elist}]"
+        L.append(f"theorem {nm} {binders} {hy} : {lhs} = {rhs} := by {proof}")
         names.append(nm)
         proved.add(key)
     L.append('')
